@@ -534,12 +534,47 @@ def pairs(draw):
 
         ops.append(kind)
 
-    return {'a': t, 'b': u, 'ops': ops}
+    post = []
+
+    if draw(hs.integers(0, 3)) == 0:
+        # an option changed through the section's (documented, unchecked)
+        # options dictionary
+        post.append([draw(hs.integers(-1, 2)), draw(hs.integers(-1, 2)),
+                     draw(hs.sampled_from(['self', 'preamble', 'meta',
+                                           'diff'])),
+                     draw(hs.sampled_from(['indent', 'encoding',
+                                           'line_endings', 'format', 'type',
+                                           'mimetype', 'custom'])),
+                     draw(hs.sampled_from([None, None, 0, 4, 'x', 'utf-8',
+                                           '$del']))])
+        ops.append('options-dict')
+
+    return {'a': t, 'b': u, 'ops': ops, 'post': post}
+
+
+def _apply_post(tree, post):
+    for c, f, which, key, value in post:
+        sec = tree
+
+        if c >= 0 and tree.changes:
+            sec = tree.changes[c % len(tree.changes)]
+
+            if f >= 0 and sec.files:
+                sec = sec.files[f % len(sec.files)]
+
+        if which != 'self':
+            sec = getattr(sec, which + '_section', sec)
+
+        if value == '$del':
+            sec.options.pop(key, None)
+        else:
+            sec.options[key] = value
 
 
 def run_pair(case, st):
     a = trees.build(case['a'])
     b = trees.build(case['b'])
+    _apply_post(b, case.get('post') or [])
     sa, sb = trees.snapshot(a), trees.snapshot(b)
     strict = trees.snap_eq(sa, sb)
     loose = py_eq(sa, sb)
